@@ -1,15 +1,20 @@
 ------------------------------- MODULE MC_Chain --------------------------------
 EXTENDS Chain
-CONSTANT PushesPer     \* pushes per thread
-VARIABLE done          \* [Thread -> pushes completed or started]
-mcv == <<chvars, done>>
-MInit == ChInit /\ done = [t \in Thread |-> 0]
-MBegin(t) == /\ done[t] < PushesPer /\ PushBegin(t, t * 10 + done[t] + 1) /\ done' = [done EXCEPT ![t] = @ + 1]
-MNext == \E t \in Thread : MBegin(t) \/ (ChInternal(t) /\ UNCHANGED done)
+CONSTANT PushesPer,    \* pushes per thread
+         LentPer       \* calls of the lending method per thread
+VARIABLE done,         \* [Thread -> pushes completed or started]
+         ldone         \* [Thread -> lending calls completed or started]
+mcv == <<chvars, done, ldone>>
+MInit == ChInit /\ done = [t \in Thread |-> 0] /\ ldone = [t \in Thread |-> 0]
+MBegin(t) == /\ done[t] < PushesPer /\ PushBegin(t, t * 10 + done[t] + 1) /\ done' = [done EXCEPT ![t] = @ + 1] /\ UNCHANGED ldone
+MLent(t) == /\ ldone[t] < LentPer /\ LentBegin(t) /\ ldone' = [ldone EXCEPT ![t] = @ + 1] /\ UNCHANGED done
+MNext == \E t \in Thread : MBegin(t) \/ MLent(t) \/ ((ChInternal(t) \/ LentEnd(t)) /\ UNCHANGED <<done, ldone>>)
 MSpec == MInit /\ [][MNext]_mcv
-Quiet == \A t \in Thread : val[t] = 0 /\ done[t] = PushesPer
+Quiet == \A t \in Thread : val[t] = 0 /\ done[t] = PushesPer /\ lpos[t] = 0 /\ ldone[t] = LentPer
 \* at quiescence the chain holds exactly the pushed ids, one cell each
 ChainLinear == Quiet => { cell[i] : i \in 1..MaxCells } \ {0} = { t * 10 + k : t \in Thread, k \in 1..PushesPer }
+\* at quiescence, with at least one lending call made, exactly one reference reads the first value
+LentFirstOnce == (Quiet /\ LentPer > 0) => Cardinality({ <<t, k>> \in { <<t, k>> \in Thread \X (1..(LentPer)) : k <= Len(lrefs[t]) } : lrefs[t][k][2] = LentIds[1] }) = 1
 T2 == {1, 2}
 T3 == {1, 2, 3}
 =============================================================================
